@@ -101,7 +101,10 @@ pub fn parse(text: &str) -> Result<BTreeMap<String, FnClauses>, String> {
                     Cur::Closure(k)
                 }
                 "@hint" => {
-                    let (after, rest) = if let Some(r) = arg.strip_prefix("after") {
+                    let (after, rest) = if arg.trim() == "start" {
+                        // `@hint start`: at the top of the function body — for facts that do not depend on a statement (broadcast use ..)
+                        (true, "\"<START>\"")
+                    } else if let Some(r) = arg.strip_prefix("after") {
                         (true, r.trim())
                     } else if let Some(r) = arg.strip_prefix("before") {
                         (false, r.trim())
